@@ -197,6 +197,46 @@ class Engine(ExprMixin, StmtMixin, CallMixin, EngineBase):
             self.axioms.append(axiom)
         return ob
 
+    def regex_lemma(self, name, module, var, spec_re, mode='match', props=()):
+        """leaf lemma about a regular expression of the real source: the pattern bound to the module-level name `var`
+        (`var = re.compile(<literal>[, flags]).match|search|...`) accepts, in `mode` ('match' = prefix, 'fullmatch'),
+        exactly the language of the z3 regular expression `spec_re`.  Proved in z3's regex theory on the pattern text
+        CPython's own parser produces; a counter-example string is reported otherwise."""
+        import time
+        from . import relemma
+        t0 = time.time()
+        ob = Obligation('lemma/%s' % name, 'lemma', 'lemma', name, [], z3.BoolVal(True), '', None, props)
+        tree = self.module(module)[0]
+        pat, flags = None, 0
+        for n in ast.walk(tree):
+            if isinstance(n, ast.Assign) and any(getattr(t, 'id', None) == var for t in n.targets):
+                c = n.value
+                if isinstance(c, ast.Attribute):
+                    c = c.value                                    # re.compile(...).match
+                if isinstance(c, ast.Call) and ast.unparse(c.func) == 're.compile' and c.args \
+                        and isinstance(c.args[0], ast.Constant) and isinstance(c.args[0].value, (str, bytes)):
+                    pat = c.args[0].value
+                    import re as _re
+                    try:
+                        flags = int(eval(ast.unparse(c.args[1]), {'re': _re})) if len(c.args) > 1 else 0
+                        flags &= ~_re.IGNORECASE if False else flags
+                    except Exception:
+                        pat = None
+        if pat is None:
+            ob.status, ob.backend, ob.time = 'failed', 'z3-regex', time.time() - t0
+            ob.detail = '%s.%s is no longer re.compile(<literal pattern>)...: the lemma has nothing to talk about' % (module, var)
+        else:
+            try:
+                lang = relemma.match_language(pat, flags) if mode == 'match' else relemma.fullmatch_language(pat, flags)
+                ok, why, _ = relemma.prove_equal(lang, spec_re, self.timeout_ms)
+                ob.status = 'proved' if ok else ('failed' if 'language' in why else 'unknown')
+                ob.detail = '' if ok else 'pattern %r: %s' % (pat, why)
+            except relemma.Untranslatable as e:
+                ob.status, ob.detail = 'unknown', 'pattern %r leaves the translated regex subset: %s' % (pat, e)
+            ob.backend, ob.time = 'z3-regex', time.time() - t0
+        self.lemma_obligations.append(ob)
+        return ob
+
     def syntactic_obligation(self, name, holds, detail='', props=()):
         """an obligation decided on the AST of the real source (read sets, statement order); no solver involved."""
         ob = Obligation('syntactic/%s' % name, 'syntactic', 'syntactic', name, [], z3.BoolVal(bool(holds)), '', None, props)
